@@ -118,6 +118,7 @@ func runC17(p *core.Program, r *core.Report) {
 	c17Retention(p, r)
 	c17Append(p, r)
 	c17NoFormatData(p, r)
+	c17CallOrder(p, r)
 	c17Levels(p, r)
 	c17LevelParse(p, r)
 	c17Rotate(p, r)
@@ -608,6 +609,78 @@ func c17Retention(p *core.Program, r *core.Report) {
 			r.Check(hasFact(func(f string) bool { return f == "conf.keepDays>0=true" || f == "conf.keepDays>=1=true" }), "C17.retention", base+" keep-days", pos, "only with keepDays > 0", "files are pruned although keep-days is not positive")
 			r.Check(hasFact(func(f string) bool { return entryName != "" && f == strings.TrimSuffix(entryName, ".Name()")+".IsDir()=false" }), "C17.retention", base+" not-dir", pos, "directories skipped", "directories are not skipped")
 			r.Check(okPath, "C17.retention", base+" path", pos, "Join(<home>/logs, entry name)", "the removed path is `"+arg+"`, not an entry of <home>/logs")
+			return true
+		})
+	}
+	// the scan that prunes is complete: the loop over the directory listing that holds an os.Remove is
+	// not left early (break, return, goto) — the listing is ordered by name, not by date, so stopping
+	// at the first young file leaves expired files of later names behind
+	for _, fi := range p.Funcs {
+		if fi.Pkg != pk || fi.Decl.Body == nil {
+			continue
+		}
+		ast.Inspect(fi.Decl.Body, func(n ast.Node) bool {
+			var body *ast.BlockStmt
+			switch v := n.(type) {
+			case *ast.RangeStmt:
+				body = v.Body
+			case *ast.ForStmt:
+				body = v.Body
+			}
+			if body == nil {
+				return true
+			}
+			removes := false
+			ast.Inspect(body, func(m ast.Node) bool {
+				if call, ok := m.(*ast.CallExpr); ok {
+					s := stripSpaces(types.ExprString(call.Fun))
+					if s == "os.Remove" || s == "os.RemoveAll" {
+						removes = true
+					}
+				}
+				return true
+			})
+			if !removes {
+				return true
+			}
+			var exits []string
+			var walk func(m ast.Node, inner bool)
+			walk = func(m ast.Node, inner bool) {
+				ast.Inspect(m, func(k ast.Node) bool {
+					switch v := k.(type) {
+					case *ast.FuncLit:
+						return false // a return inside a closure leaves the closure only
+					case *ast.ForStmt, *ast.RangeStmt, *ast.SwitchStmt, *ast.SelectStmt, *ast.TypeSwitchStmt:
+						if k != m {
+							// break inside these binds to them, return/goto still leave the scan
+							ast.Inspect(k, func(q ast.Node) bool {
+								switch w := q.(type) {
+								case *ast.FuncLit:
+									return false
+								case *ast.ReturnStmt:
+									exits = append(exits, "return at "+p.Pos(w.Pos()))
+								case *ast.BranchStmt:
+									if w.Tok == token.GOTO || (w.Tok == token.BREAK && w.Label != nil) {
+										exits = append(exits, w.Tok.String()+" at "+p.Pos(w.Pos()))
+									}
+								}
+								return true
+							})
+							return false
+						}
+					case *ast.ReturnStmt:
+						exits = append(exits, "return at "+p.Pos(v.Pos()))
+					case *ast.BranchStmt:
+						if v.Tok == token.BREAK || v.Tok == token.GOTO {
+							exits = append(exits, v.Tok.String()+" at "+p.Pos(v.Pos()))
+						}
+					}
+					return true
+				})
+			}
+			walk(body, false)
+			r.Check(len(exits) == 0, "C17.retention", core.FuncName(fi.Obj)+" scans the whole listing", p.Pos(n.Pos()), "the pruning loop visits every entry",
+				fmt.Sprintf("the loop that prunes old files is left early (%s): entries after that point are never examined, expired files stay", strings.Join(uniq(exits), ", ")))
 			return true
 		})
 	}
@@ -1632,4 +1705,36 @@ func factsWhenTrue(p *core.Program, fi *core.FuncInfo, call *ast.CallExpr, norm 
 	}
 	sort.Strings(out)
 	return out
+}
+
+// c17CallOrder: lines reach the sink in the order of the calls that log them, and have reached it
+// when the call returns: no logging method hands its line to another goroutine. The package starts
+// goroutines only from its constructors (the background cycle); a go statement anywhere else in the
+// package is reported.
+func c17CallOrder(p *core.Program, r *core.Report) {
+	pk := p.Pkg("logger/logfile")
+	if pk == nil {
+		return
+	}
+	for _, fi := range p.Funcs {
+		if fi.Pkg != pk || fi.Decl.Body == nil {
+			continue
+		}
+		var probs []string
+		spawns := 0
+		ast.Inspect(fi.Decl.Body, func(n ast.Node) bool {
+			gs, ok := n.(*ast.GoStmt)
+			if !ok {
+				return true
+			}
+			spawns++
+			if core.RecvNamed(fi.Obj) != nil || !strings.HasPrefix(fi.Obj.Name(), "New") && !strings.HasPrefix(fi.Obj.Name(), "new") && !strings.HasPrefix(fi.Obj.Name(), "Get") {
+				probs = append(probs, fmt.Sprintf("%s: `go %s` hands work to another goroutine outside the constructor: a line logged here can be written after lines logged later, or after the call has returned", p.Pos(gs.Pos()), stripSpaces(types.ExprString(gs.Call.Fun))))
+			}
+			return true
+		})
+		if spawns > 0 {
+			fileProbs(r, "C17.single-sink", core.FuncName(fi.Obj)+" goroutines", p.Pos(fi.Decl.Pos()), probs, "goroutines are started by the constructor only")
+		}
+	}
 }
